@@ -20,12 +20,12 @@ import (
 // Environment doubles and the scenario interpreter shared by C10 C11 C12 C15.
 
 var (
-	errInjectedWrite = errors.New("injected write failure")
-	errConnClosed    = errors.New("vconn: use of closed connection")
-	errReadTimeout   = errors.New("vconn: read timeout")
-	errInjConnClose  = errors.New("injected connection close error")
-	errInjAgentClose = errors.New("injected agent close error")
-	errInjAgentStart = errors.New("injected agent start error")
+	errInjectedWrite       = errors.New("injected write failure")
+	errConnClosed          = errors.New("vconn: use of closed connection")
+	errReadTimeout   error = &net.OpError{Op: "read", Net: "vconn", Err: os.ErrDeadlineExceeded} // a net.Error whose Timeout() is true, like a read deadline that expired
+	errInjConnClose        = errors.New("injected connection close error")
+	errInjAgentClose       = errors.New("injected agent close error")
+	errInjAgentStart       = errors.New("injected agent start error")
 	// the same faults with errors whose IDENTITY means something elsewhere: closing a connection that is closed
 	// already, an agent closed by its owner first, a write that runs into its deadline
 	errInjConnCloseSentinel  error = &net.OpError{Op: "close", Net: "udp", Err: net.ErrClosed}
